@@ -81,7 +81,7 @@ class RG(G):
         self.raw = raw
 
     def value(self):
-        if self.raw:
+        if self.raw or self.name == "RZX":
             return self.val
         return super().value()
 
@@ -121,8 +121,29 @@ MODEL_ERR = {"err size": "err value", "err route:shape": "err index", "err route
              "err decomp:notSufficient1q": "err notSufficient1q", "err decomp:invalid2q": "err invalid2q"}
 
 
+def same_gates13(model, impl_gates):
+    """c03.same_gates, with RZX (native to SCQubits, parametrised, no decomposition rule) compared by its angle"""
+    if len(model) != len(impl_gates):
+        return False
+    for (n, t, c, v), g in zip(model, impl_gates):
+        if n == "RZX":
+            if g.name != "RZX" or t != aslist(g.targets) or c != aslist(g.controls):
+                return False
+            iv = g.arg_value
+            if iv is None:
+                if v not in (None, 0, 0.0):      # a raw RZX object without an angle
+                    return False
+            elif v is None or abs(iv - v) > 1e-12 * max(1.0, abs(v)):
+                return False
+        elif not same_gates([(n, t, c, v)], [g]):
+            return False
+    return True
+
+
 def expressible(dev, name, native):
     """can the device express this library gate at all (property: otherwise transpile must refuse)"""
+    if name == "RZX":
+        return "RZX" in native          # native to SCQubits; no decomposition rule anywhere
     if name not in RESOLVABLE:
         return False
     if name in ("SQRTSWAP", "SQRTISWAP") and name not in native:
@@ -135,8 +156,8 @@ def expressible(dev, name, native):
 ALIASES = {"H": (0, 1), "CX": (1, 1), "iSWAP": (0, 2), "SWAPALPHA": (0, 2)}
 XSHAPE = dict(decomp.SHAPE)
 XSHAPE.update(ALIASES)
-# every gate name of the library except RZX (native to SCQubits, known to no rule and not to the router: documented in
-# notes/C13.md as outside the class "circuits over resolvable gates")
+# every other gate name of the library except RZX (native to SCQubits, known to no rule; routed since fixes/C13-3 - it is
+# in the class and compared with the model like the resolvable gates, see in_class / same_gates13)
 EXTRA = [n for n in XSHAPE if n not in RESOLVABLE + OTHERS and n != "RZX"]
 # proper arguments of the gate classes that take more than one
 # the rest of the model's gate alphabet (decomp.GNAMES): refused today, compared as refusals in the exhaustive stream
@@ -154,9 +175,9 @@ def shape_ok(N, g):
 
 
 def in_class(w):
-    """the quantifier of the property: library gates (the resolvable ones and the other gate classes of the library;
-    not RZX, which no rule knows) as their classes build them, on distinct in-range qubits"""
-    return all(g[0] in RESOLVABLE + OTHERS + EXTRA and shape_ok(w["N"], g) for g in w["gates"])
+    """the quantifier of the property: library gates (the resolvable ones, the other gate classes of the library, and
+    RZX, which SCQubits lists as native) as their classes build them, on distinct in-range qubits"""
+    return all(g[0] in RESOLVABLE + OTHERS + EXTRA + ["RZX"] and shape_ok(w["N"], g) for g in w["gates"])
 
 
 def wit(dev, N, gates, M=None):
@@ -264,7 +285,7 @@ def _check_single(w, qc0):
 def placed(name, qs, idx=0):
     nc, nt = XSHAPE[name]
     t, c = list(qs[:nt]), list(qs[nt:])
-    if name in PARAM:
+    if name in PARAM or name == "RZX":
         return RG(name, t, c, sym=idx, val=0.7390851332151607)
     return RG(name, t, c)
 
@@ -352,6 +373,12 @@ def systematic_multi(N):
                 for n in SWP2:
                     yield "exchange-before-controlled", [p2(n, a, b), p2(c, *o)]
                     yield "controlled-before-exchange", [p2(c, *o), p2(n, b, a)]
+        # RZX (native to SCQubits, refused elsewhere): both target orders, next to other gates of the pair
+        for o1 in ors:
+            o2 = (o1[1], o1[0])
+            yield "rzx-both-orders", [p2("RZX", *o1), p2("RZX", *o2, idx=1)]
+            yield "rzx+controlled", [p2("CNOT", *o1), p2("RZX", *o2, idx=1), p2("CNOT", *o2)]
+            yield "rzx+exchange", [p2("SWAP", a, b), p2("RZX", *o1, idx=1)]
         # a three-qubit gate after a CNOT on two of its qubits (its decomposition contains both orientations)
         for c in range(N):
             if c in (a, b):
@@ -376,6 +403,8 @@ def systematic_histories(N):
         two = [p2("CNOT", a, b), p2("ISWAP", b, a)]
         yield "same-object-twice", [("CircularSpinChain", N, two), ("CircularSpinChain", N, two, True),
                                     ("LinearSpinChain", N, two)]
+        yield "rzx", [("SCQubits", N, [p2("RZX", a, b)]), ("SCQubits", N, [p2("RZX", b, a)]),
+                      ("LinearSpinChain", N, [p2("RZX", a, b)]), ("SCQubits", N, [p2("CNOT", a, b), p2("RZX", b, a, idx=1)])]
         yield "names", [("LinearSpinChain", N, [p2("CSIGN", a, b)]), ("LinearSpinChain", N, ab),
                         ("LinearSpinChain", N, [p2("SWAP", a, b)]), ("LinearSpinChain", N, [p2("ISWAP", b, a)])]
 
@@ -385,7 +414,7 @@ def size_cases():
     for dev in DEVS:
         for M in range(2, 6):
             for N in list(range(2, M)) + [M + 1]:
-                for name in ("CNOT", "CSIGN", "SWAP", "ISWAP"):
+                for name in ("CNOT", "CSIGN", "SWAP", "ISWAP") + (("RZX",) if dev == "SCQubits" else ()):
                     for a, b in itertools.permutations(range(N), 2):
                         yield dev, N, [p2(name, a, b)], M
                 if N >= 3:
@@ -433,7 +462,8 @@ class C13(PropertyCheck):
         "toffoli_repaired",
         "size_tie", "transpileOn_eq", "smallSpec_valid", "transpile_coupled_device", "transpile_refuses_large",
         "transpile_den_device", "transpile_coupled_device_partial", "C13_counterexample_small_circuit_on_ring",
-        "C13_counterexample_large_circuit")]
+        "C13_counterexample_large_circuit",
+        "transpile_is_source", "transpile_coupled_rzx", "C13_counterexample_rzx_unrouted")]
     technique = ("Lean 4: composition of the routing model (C07) and the decomposition model (C03) exactly as "
                  "ModelProcessor.transpile composes the code; device tables and the shape of transpile regenerated from the "
                  "source with ast; theorems for all register sizes and all circuits by induction through the stages; "
@@ -456,7 +486,13 @@ class C13(PropertyCheck):
                   "and for a circuit on N <= M qubits every output gate acts on qubits the DEVICE with M qubits couples "
                   "(transpile_coupled_device), same unitary (transpile_den_device); for the code as found this holds when N = M "
                   "or N < M and the device is not the ring (transpile_coupled_device_partial), counter-examples "
-                  "C13_counterexample_small_circuit_on_ring / _large_circuit confirmed on the real code. Model and code are "
+                  "C13_counterexample_small_circuit_on_ring / _large_circuit confirmed on the real code. RZX (native to "
+                  "SCQubits, no decomposition rule): the router of the source is regenerated (routeRzx, transpileVR); a circuit "
+                  "of the class is transpiled identically by both routers (transpile_is_source), with fixes/C13-3 and RZX "
+                  "admitted to the class every output gate acts on coupled qubits (transpile_coupled_rzx), the router as found "
+                  "returns RZX[0,2] on SCQubits(3) unrouted (C13_counterexample_rzx_unrouted, confirmed); native-gate, refusal and "
+                  "unitary clauses for circuits WITH RZX are covered by the correspondence and the oracle only (the shared "
+                  "denotation denG has no RZX; C07 proves the routing of RZX over C). Model and code are "
                   "compared gate for gate: every placement of every library gate on 1-5 qubits on each device, systematic "
                   "circuits that use a pair of qubits more than once (every pair, every device), histories of 3-5 transpile "
                   "calls in one process, circuits with qc.N != num_qubits, random circuits, malformed circuits; fields of the "
@@ -491,7 +527,9 @@ class C13(PropertyCheck):
                 "_decompose_multi_qubit_gates resolves in %s" % (
                     ("one gate name", "applied", "the list [CNOT]") if decomp.string_basis_exact()
                     else ("a text searched for substrings", "not applied", "the string \"CNOT\"")))
-        self.devs, (self.pre, self.guard), _ = devices.regenerate()
+        self.devs, (self.pre, self.guard, self.rz), _ = devices.regenerate()
+        ctx.log("source shape: RZX is %s by the router (fixes/C13-3 %s)" % (
+            ("routed", "applied") if self.rz else ("not known", "not applied")))
         ctx.log("source shape: transpile %s a circuit on more qubits than the processor; CircularSpinChain routes a "
                 "smaller circuit on the %s chain (fixes/C13-2 %s)" % (
                     "refuses" if self.guard else "does not refuse", self.devs["circularSpinChain"][3],
@@ -535,6 +573,15 @@ class C13(PropertyCheck):
         if model.get("guard") != live_guard:
             res.disagree(inp, model.get("guard"), live_guard, "regenerated flag sizeGuard vs live transpile",
                          {"dev": "LinearSpinChain", "N": 3, "M": 2, "gates": [["CNOT", [2], [0], None]]})
+        # does the router route RZX
+        qz = QubitCircuit(3)
+        qz.add_gate("RZX", targets=[0, 2], arg_value=0.5)
+        live_rzx = "1" if len(to_chain_structure(qz, "linear").gates) > 1 else "0"
+        inp = {"tables": "router routes RZX"}
+        res.case(inp, nontrivial=True, tags=["tables"])
+        if model.get("rzx") != live_rzx:
+            res.disagree(inp, model.get("rzx"), live_rzx, "regenerated flag routeRzx vs live to_chain_structure",
+                         {"dev": "SCQubits", "N": 3, "gates": [["RZX", [0, 2], [], 0.5]]})
         for dev in DEVS:
             p = processor(dev, 4)
             nat = "None" if p.native_gates is None else ",".join(p.native_gates)
@@ -565,7 +612,7 @@ class C13(PropertyCheck):
         bad = None
         if st != ist:
             bad = (st, ist, "verdict of transpile")
-        elif st == "ok" and not same_gates(mg, r.gates):
+        elif st == "ok" and not same_gates13(mg, r.gates):
             bad = ([list(x) for x in mg][:40],
                    [[g.name, aslist(g.targets), aslist(g.controls), g.arg_value] for g in r.gates][:40],
                    "transpiled gate list")
@@ -644,7 +691,7 @@ class C13(PropertyCheck):
                     continue
                 # + the alias names of the gate classes: H has the rule of SNOT (Gen.ruleAlias, the driver reads it as SNOT),
                 # CX / iSWAP / SWAPALPHA have no rule and are names the model does not know either
-                for name in RESOLVABLE + OTHERS + MODEL_EXTRA + list(ALIASES):
+                for name in RESOLVABLE + OTHERS + MODEL_EXTRA + list(ALIASES) + ["RZX"]:
                     nc, nt = XSHAPE[name]
                     if nc + nt > N:
                         continue
@@ -727,21 +774,29 @@ class C13(PropertyCheck):
         ring; the finding is recorded and replayed on its own."""
         if getattr(self, "guard", None) is None:
             try:
-                _, (_, self.guard) = devices.extract_all()
+                _, (_, self.guard, _rz) = devices.extract_all()
             except TranslatorError:
                 self.guard = True          # unrecognised source: strict reading
-        if self.guard:
-            return True
+        if getattr(self, "rz", None) is None:
+            try:
+                self.rz = bool(devices.route_rzx())
+            except TranslatorError:
+                self.rz = True             # unrecognised source: strict reading
         for c in (w["history"] if "history" in w else [w]):
             M, N = c.get("M", c["N"]), c["N"]
-            if N > M or (N < M and c["dev"] == "CircularSpinChain"):
+            if not self.guard and (N > M or (N < M and c["dev"] == "CircularSpinChain")):
+                return False
+            # while the router does not know RZX (fixes/C13-3 not applied) the theorems do not cover circuits with RZX
+            if not self.rz and any(g[0] == "RZX" for g in c["gates"]):
                 return False
         return True
 
     def finding_matches(self, witness, finding):
+        cs = witness["history"] if "history" in witness else [witness]
         if finding.get("class") == "circuit-size-differs-from-processor":
-            cs = witness["history"] if "history" in witness else [witness]
             return any(c.get("M", c["N"]) != c["N"] for c in cs)
+        if finding.get("class") == "rzx-unrouted":
+            return any(g[0] == "RZX" for c in cs for g in c["gates"])
         return witness == finding.get("witness")
 
     def _sizes(self):
@@ -785,6 +840,15 @@ class C13(PropertyCheck):
                         yield wit(dev, N, [placed(name, qs)])
         yield from self._multi()
         yield from self._sizes()
+        yield from self._rzx()
+
+    def _rzx(self):
+        for N in (2, 3, 4):
+            for dev in DEVS:
+                for a, b in itertools.permutations(range(N), 2):
+                    yield wit(dev, N, [p2("RZX", a, b)])
+                    if b > a + 1:
+                        yield wit(dev, N, [p2("RZX", a, b), p2("CNOT", b, a), p2("RZX", b, a, idx=2)])
 
     def _multi(self, maxN=5):
         """both orientations of every pair in one circuit, and in consecutive calls"""
@@ -846,7 +910,7 @@ class C13(PropertyCheck):
                 if n >= 2:
                     break
         n = 0
-        for w in itertools.chain(self._multi(4), self._sizes()):
+        for w in itertools.chain(self._multi(4), self._sizes(), self._rzx()):
             if not self._in_theorem_class(w):
                 continue
             f, d = check_property(w)
